@@ -28,6 +28,7 @@ func c04(c *Ctx) {
 	// "adaptation field plus payload fill the packet exactly": the stuffing adaptation field WriteData asks for n free bytes
 	// occupies exactly n bytes, whatever state its maker may hold (otherwise writePacket pads after the payload)
 	c01Stuffing(c, ck)
+	c04ExactFill(c)
 	ck.ReportAPI(r)
 	for _, d := range ck.IP.Diag {
 		r.Unknown("A0", "diag/"+d, "", d)
